@@ -11,7 +11,7 @@ import os
 
 import numpy as np
 
-from ..kernel import scribble, chance, pick, wpick, adigest, sdigest
+from ..kernel import scribble, Held, chance, pick, wpick, adigest, sdigest
 from ..refs.sphere import sep_deg
 from .. import present
 
@@ -363,6 +363,7 @@ def execute(script, run, env):
     c15 = run.prop == "C15"
     M = {}      # name -> dict(obj, ra, dec, depth, ncalls, last)
     del _EARLIER[:]
+    del _HELD.items[:]
     HH = {}     # name -> dict(obj HTM, depth, bufs {n: (ra, dec)}, ncalls)
     ncallers = len(set(op.get("c", 0) for op in script["ops"]))
     prev_c = None
@@ -373,6 +374,12 @@ def execute(script, run, env):
             run.fault("interleaved_matchers")
         prev_c = c
         k = op["k"]
+        if _HELD.items and judge:
+            _HELD.settle(run, "htm.result_overwritten", {})
+            if run.failures:
+                break
+        elif _HELD.items:
+            del _HELD.items[:]
         try:
             if k == "build":
                 ra, dec = points(op["set"])
@@ -416,6 +423,7 @@ def execute(script, run, env):
         run.nontrivial = True
 
 
+_HELD = Held()     # pair arrays the caller still holds: verified unchanged, then edited, before the next operation
 _EARLIER = []      # (name, guard) of arrays handed over in EARLIER calls of the current run (C15)
 
 
@@ -576,8 +584,7 @@ def do_match(run, op, M, htm, root, judge, c15):
         judge_pairs(run, dict(feats, depth=m["depth2"], via="depth2"), o[0], o[1], o[2], S, radius, -1,
                     "Matcher(depth=%d) on the same points" % m["depth2"])
     # the caller owns the index/separation arrays it was handed
-    if scribble((m1, m2, d12)):
-        run.fault("caller_edited_a_result_in_place")
+    _HELD.hold((m1, m2, d12))
 
 
 def do_oneshot(run, op, HH, htm, root, judge):
@@ -633,8 +640,7 @@ def do_oneshot(run, op, HH, htm, root, judge):
         return
     S = brute(qra, qdec, ra2v, dec2v, radius)
     judge_pairs(run, feats, m1, m2, d12, S, radius, maxmatch, what)
-    if scribble((m1, m2, d12)):
-        run.fault("caller_edited_a_result_in_place")
+    _HELD.hold((m1, m2, d12))
 
 
 def chance_det(seed):
